@@ -352,6 +352,16 @@ theorem chain_bystander_stale (c : Cl) (Ls : List Level) (ls : List (List Ev)) (
   C01Chain.chain_bystander_stale c Ls ls nx hg hr hsec hbelow hch hu hw
 
 open MdkVerif.Fork MdkVerif.Chain MdkVerif.Props.C01Fork in
+/-- many clients, own schedules, stale events interleaved -/
+theorem chain_converges_stale (ps : List C01Chain.Party) (g0 : GState) (mp : Nat) (w : Ev) (T : List Ev) (rest : List Level)
+    (hmin : IsMin w T) (hcross : ∀ e1 ∈ T, ∀ e2 ∈ evs rest, e1.n ≠ e2.n ∧ e1.cipher ≠ e2.cipher)
+    (h : ∀ p ∈ ps, C01Chain.PartyOKS g0 mp w T rest p) :
+    (∀ p ∈ ps, p.final.g.path = g0.path ++ (w :: rest.map (·.1)).map (·.cipher) ∧
+      wc p.final.g [] = wc (chainG mp g0 (w :: rest.map (·.1))) []) ∧
+    (∀ p ∈ ps, ∀ q ∈ ps, p.final.g.path = q.final.g.path ∧ wc p.final.g [] = wc q.final.g []) :=
+  C01Chain.chain_converges_stale ps g0 mp w T rest hmin hcross h
+
+open MdkVerif.Fork MdkVerif.Chain MdkVerif.Props.C01Fork in
 /-- a rollback over two epochs (retention ≥ 2) -/
 theorem depth2_rollback (c : Cl) (a b a' : Ev) (nx : Nat)
     (hg : c.hasGroup = true) (hr : 2 ≤ c.retention) (hsec : SecretsOK c.g) (hbelow : Below c)
